@@ -1244,7 +1244,8 @@ class Database:
                     i
                     for i, (ancestor, loc) in enumerate(zip(ancestors, lLocation))
                     if ancestor == anchorSerialNum and loc in locations
-                ]
+                ],
+                dtype=int,  # (an empty selection is an index array too: the locations were vacant)
             )
 
             # This could also be way more efficient if lLocation were a numpy array
